@@ -145,10 +145,10 @@ def d1_delete_sites(ctx):
                                f'{f.qualname}: handler around a deletion re-raises',
                                detail='a handler swallows the failure of a deletion (foreign content '
                                       'would be left behind silently)')
-    ctx.floor('C16 unlink sites', counts['DELETE'], 7)
+    ctx.floor('C16 unlink sites', counts['DELETE'], 4)
     ctx.floor('C16 rmdir sites', counts['RMDIR'], 2)
-    ctx.floor('C16 rmtree sites', counts['RMTREE'], 2)
-    ctx.floor('C16 mkdir sites', counts['MKDIR'], 3)
+    ctx.floor('C16 rmtree sites', counts['RMTREE'], 1)
+    ctx.floor('C16 mkdir sites', counts['MKDIR'], 2)
     ctx.floor('C16 copytree sites', counts['COPYTREE'], 1)
     ctx.info['site_counts'] = counts
 
@@ -335,7 +335,7 @@ def d4_overwrite(ctx):
             seen.add((func.key, node.lineno))
             ctx.assume('R-DOM', 'D4', func, node, f'gate::{norm(node.test)}',
                        f'overwrite-related test in {func.qualname}', detail=text)
-    ctx.floor('C16 effect sites under creators', nsites, 40)
+    ctx.floor('C16 effect sites under creators', nsites, 25)
 
 
 def d5_creator_effect_set(ctx):
